@@ -66,6 +66,12 @@ const (
 type genCfg struct {
 	u         universe
 	pairItems bool // lists: also [ok, x] and [null, ok] (position sensitivity)
+	// combos: lists of 2-3 items drawn in every order from {null, plain item, item
+	// that needs single-value-to-list coercion (itself or inside), wrong item}
+	// wherever the item type has something to coerce. 0 none; 1 length 2 over the
+	// full alphabet and length 3 over {null, plain, first coercion item}; 2 both
+	// lengths over the full alphabet
+	combos    int
 	double    bool // input objects at the probed position: also every pair of field deviations
 	topBudget int  // budget of the probed position
 }
@@ -357,6 +363,82 @@ func (g *genCfg) values(t *typ, budget int) []gval {
 			continue
 		}
 		out = append(out, x.plus(x.J, "single value for list"))
+	}
+	out = append(out, g.itemCombos(t)...)
+	return out
+}
+
+// coercionItems: values of type e that are valid only because a single value
+// is coerced to a list, at the top of the value or one level inside it.
+func (g *genCfg) coercionItems(e *typ) []gval {
+	var out []gval
+	if e.isList() {
+		if single := g.minValid(e.Elem); single.K != jArr {
+			out = append(out, tagged(single, "item needing coercion"))
+		}
+		if in := g.coercionItems(e.Elem); len(in) > 0 {
+			out = append(out, tagged(jarr(in[0].J), "item needing inner coercion"))
+		}
+		return out
+	}
+	d := g.u[e.Name]
+	if d == nil || d.Kind != kInput || d.OneOf {
+		return nil
+	}
+	for _, f := range d.Fields {
+		if f.T.isList() {
+			if single := g.minValid(f.T.Elem); single.K != jArr {
+				out = append(out, tagged(g.minValid(e).with(f.Name, single), "item needing inner coercion"))
+				break
+			}
+		}
+	}
+	return out
+}
+
+// itemCombos: see genCfg.combos.
+func (g *genCfg) itemCombos(t *typ) []gval {
+	if g.combos == 0 {
+		return nil
+	}
+	co := g.coercionItems(t.Elem)
+	if len(co) == 0 {
+		return nil
+	}
+	wrong := tagged(jbool(true), "item of wrong kind")
+	if t.base() == "Boolean" {
+		wrong = tagged(jstr("wrongZq9"), "item of wrong kind")
+	}
+	small := []gval{tagged(jnull(), "item null"), tagged(g.minValid(t.Elem), "item plain"), co[0]}
+	full := append(append([]gval{}, small...), co[1:]...)
+	if t.base() != "Any" { // nothing is of the wrong kind for the custom scalar
+		full = append(full, wrong)
+	}
+	var out []gval
+	emit := func(items ...gval) {
+		a := &jv{K: jArr}
+		tags := []string{"several items"}
+		for _, it := range items {
+			a.A = append(a.A, it.J)
+			tags = append(tags, it.Tags...)
+		}
+		out = append(out, gval{J: a, Tags: tags})
+	}
+	for _, a := range full {
+		for _, b := range full {
+			emit(a, b)
+		}
+	}
+	three := small
+	if g.combos >= 2 {
+		three = full
+	}
+	for _, a := range three {
+		for _, b := range three {
+			for _, c := range three {
+				emit(a, b, c)
+			}
+		}
 	}
 	return out
 }
